@@ -295,6 +295,7 @@ func runC16(c *core.Ctx, o Options) {
 		c.Check(n >= 2, "J4", "ValueByTag", "anchored lookups found", vbt.Pos(), fmt.Sprint(n), "ValueByTag no longer searches with anchored needles")
 	}
 	c.Extra["paths"] = nPaths
+	c.RuleMin = map[string]int{"J1": 16, "J2": 5, "J3": 2, "J4": 14}
 	c.MinObl = 5*5 + 2
 }
 
@@ -490,5 +491,6 @@ func runC14(c *core.Ctx, o Options) {
 	// Q3b: nothing between the handler and the outbound queue runs in another goroutine
 	checkSendChainNoSpawn(c, s, "Q3")
 	c.Extra["paths"] = len(traces)
+	c.RuleMin = map[string]int{"Q0": 3, "Q1": 1, "Q2": 1, "Q3": 7, "Q4": 5, "Q5": 1}
 	c.MinObl = 7
 }
